@@ -51,6 +51,7 @@ amap_f = z3.Function("Amap", z3.ArraySort(I, V.RefSort), IS)   # Amap C i = A (C
 L_uf = z3.Function("L!type", V.RefSort, S)                      # ghost: the Specification's bit length set of a type
 A_uf = z3.Function("A!type", V.RefSort, I)                      # ghost: the Specification's alignment of a type
 sfold_f = z3.Function("sfold", SS, IS, I, S)                    # struct layout fold over the first n fields
+sfold_hint = z3.Function("unfold!sfold", SS, IS, I, B)          # trigger marker: "unfold sfold at n" (no meaning of its own)
 
 # witness (skolem) functions
 w_mod = z3.Function("w_mod", S, I, I, I)
@@ -178,6 +179,10 @@ def prelude() -> List[Tuple[str, str, Any]]:
         FA([C, i], sel(amap_f(C), i) == A_uf(sel(C, i)), patterns=[sel(amap_f(C), i), MP(A_uf(sel(C, i)), amap_f(C))]))
     add("sfold-zero", "definitional: SFold [] = {0}", FA([F, M], sfold_f(F, M, 0) == singleton_f(0),
                                                         patterns=[sfold_f(F, M, 0)]))
+    add("sfold-succ", "definitional: SFold(fs ++ [f]) = sumset(padset(SFold(fs), A f), L f); instantiated only where a "
+                      "specification asks for it (trigger marker unfold!sfold, an uninterpreted predicate without axioms)",
+        FA([F, M, n], Imp(n >= 0, sfold_f(F, M, n + 1) == sumset_f(padset_f(sfold_f(F, M, n), sel(M, n)), sel(F, n))),
+           patterns=[sfold_hint(F, M, n)]))
     add("minmap", "definitional", FA([F, i], sel(minmap(F), i) == smin(sel(F, i)), patterns=[sel(minmap(F), i)]))
     add("maxmap", "definitional", FA([F, i], sel(maxmap(F), i) == smax(sel(F, i)), patterns=[sel(maxmap(F), i)]))
 
@@ -520,5 +525,5 @@ def LCM(a, b):
 
 
 def sfold_unfold(F, M, n):
-    """Definitional instance: SFold(fs ++ [f]) = sumset(padset(SFold(fs), A f), L f), for the field with index n."""
-    return sfold_f(F, M, n + 1) == sumset_f(padset_f(sfold_f(F, M, n), z3.Select(M, n)), z3.Select(F, n))
+    """Trigger atom asking the solver to unfold the definition of SFold at index n (axiom sfold-succ)."""
+    return sfold_hint(F, M, _i(n))
